@@ -165,7 +165,7 @@ type cacheSeqInst struct {
 	l      *ledger
 	events []CIn
 	log    []string
-	strict bool // oracle options
+	mode   string // which property's oracle is applied (C01: everything but the callback ledger; C06: the ledger)
 	keyFn  func(*CState) string
 }
 
@@ -212,11 +212,19 @@ func (ci *cacheSeqInst) Apply(ev int, check bool) (string, string) {
 	if in.Op != CDeleteExpired && in.Op != CRange && in.Op != CItems && in.Op != CClear && in.Op != CCount && in.K < NKC {
 		cls = " on " + entryClass(&pre, in.K) + " entry"
 	}
-	if !ex.matches(got, false, false) {
+	if ci.mode == "C06" {
+		if !ex.matches(got, false, false) {
+			if ex.matches(got, false, true) {
+				return fmt.Sprintf("%s%s: evicted-callback deliveries differ from the specification", in.Op, cls),
+					fmt.Sprintf("call %v delivered [%s], specification says [%s] (optional=%v)", in, got.Fired, ex.Out.Fired, ex.FiredOptional)
+			}
+			return "!other", "" // another property's oracle failed: not counted here, not expanded
+		}
+	} else if !ex.matches(got, false, ci.mode == "C01") {
 		return fmt.Sprintf("%s%s: result differs from the TTL-map semantics (%s)", in.Op, cls, diffFields(ex.Out, got)),
 			fmt.Sprintf("call %v returned %v, specification says %v (now=epoch+%d, entry before: %+v)", in, got, ex.Out, pre.Now-epochNs, pre.Ent[in.K%NKC])
 	}
-	if ci.l.reentryV != "" {
+	if ci.l.reentryV != "" && ci.mode != "C01" {
 		return fmt.Sprintf("%s%s: %s", in.Op, cls, "evicted callback delivered for a value that is still retrievable"), ci.l.reentryV
 	}
 	ci.m = ns
@@ -343,7 +351,7 @@ func relKey(s *CState) string {
 }
 
 // newCacheSeqSpec builds the E2 job for one constructor configuration and alphabet.
-func newCacheSeqSpec(name string, cfg CacheCfg, defAtStart time.Duration, cbAtStart bool, events []CIn, maxDepth int) *SeqSpec {
+func newCacheSeqSpec(name string, cfg CacheCfg, defAtStart time.Duration, cbAtStart bool, events []CIn, maxDepth int, mode string) *SeqSpec {
 	names := make([]string, len(events))
 	for i, e := range events {
 		names[i] = e.String()
@@ -362,6 +370,6 @@ func newCacheSeqSpec(name string, cfg CacheCfg, defAtStart time.Duration, cbAtSt
 		if cbAtStart {
 			m.CB = 1
 		}
-		return &cacheSeqInst{c: c, m: m, l: l, events: events, keyFn: relKey}
+		return &cacheSeqInst{c: c, m: m, l: l, events: events, keyFn: relKey, mode: mode}
 	}}
 }
